@@ -111,6 +111,22 @@ def gen_layout(rng, ndecl):
     return files
 
 
+def gen_deep_layout(rng, ndecl):
+    """An include chain 11-14 files deep (file i includes file i+1), declarations spread
+    over all levels, the deepest file never empty."""
+    nfiles = rng.randint(12, 15)
+    files = [[] for _ in range(nfiles)]
+    for k in range(ndecl):
+        files[rng.randrange(nfiles)].append(['d', k])
+    if ndecl and not files[-1]:
+        donors = [f for f in files[:-1] if f]
+        f = rng.choice(donors)
+        files[-1].append(f.pop(rng.randrange(len(f))))
+    for j in range(nfiles - 1):
+        files[j].insert(rng.randint(0, len(files[j])), ['i', j + 1])
+    return files
+
+
 def layout_has_repeat(files):
     seen = {}
     for f in files:
@@ -131,7 +147,10 @@ def new_run_c17(rng, tier):
     spec, src = pick_spec(rng, tier, for_c17=True)
     ndecl = len(malprint.declarations(spec))
     cfg = {'prop': 'C17', 'guards': findings.active_guards('C17'), 'steps': rng.randint(4, 10)}
-    return cfg, {'spec': spec, 'source': src, 'layout': gen_layout(rng, ndecl)}
+    layout = gen_layout(rng, ndecl)
+    if rng.random() < 0.08:
+        layout = gen_deep_layout(rng, ndecl)
+    return cfg, {'spec': spec, 'source': src, 'layout': layout}
 
 
 class SourceWorld(BaseWorld):
@@ -312,6 +331,8 @@ class SourceWorld(BaseWorld):
         # C17
         nfiles = len(self.files)
         target = rng.randrange(nfiles)
+        if nfiles >= 10 and rng.random() < 0.6:
+            target = rng.randrange(nfiles - 3, nfiles)      # deep chains: damage near the bottom
         p = os.path.join(self.dir, 'prog', self.files[target])
         with open(p, encoding='utf-8') as f:
             text = f.read()
@@ -324,7 +345,8 @@ class SourceWorld(BaseWorld):
         if kind == 'keyword':           # reserved-word misuse: an identifier becomes a reserved token
             data = rng.choice(['A', 'C', 'I', 'E', 'asset', 'let', 'info', 'category', 'extends'])
         op = {'op': 'damaged_read', 'file': target, 'kind': kind, 'pos': pos, 'len': ln,
-              'data': data, 'how': rng.choice(['compiler', 'compiler', 'from_mal_spec', 'reuse_retry'])}
+              'data': data, 'how': rng.choice(['compiler', 'compiler', 'from_mal_spec', 'reuse_retry']),
+              'path_form': rng.choice(['abs', 'abs', 'name', 'dot', 'rel'])}
         r = rng.random()
         if r < 0.12 and kind != 'eio':
             # the damaged file really is on disk, in a second directory that holds a tree
@@ -479,19 +501,33 @@ class SourceWorld(BaseWorld):
             return s
         real = self.comp.FileStream
         self.comp.FileStream = fake_file_stream
+        # how the caller names the root: absolute, or relative to its working directory
+        form = op.get('path_form', 'abs')
+        root = os.path.join(d, self.files[0])
+        if form == 'name':
+            os.chdir(d)
+            root = self.files[0]
+        elif form == 'dot':
+            os.chdir(d)
+            root = './' + self.files[0]
+        elif form == 'rel':
+            os.chdir(self.dir)
+            root = os.path.join('prog', self.files[0])
+        self.count('probe:root_' + form)
         try:
             if op.get('how') == 'reuse_retry':
                 # one compiler object, the same damaged tree read twice: the answer of
                 # the second call is the one judged
                 c = self.comp.MalCompiler()
-                first = self._compile(os.path.join(d, self.files[0]), compiler=c)
-                o = self._compile(os.path.join(d, self.files[0]), compiler=c)
+                first = self._compile(root, compiler=c)
+                o = self._compile(root, compiler=c)
                 self.count('probe:compiler_instance_reused_after_error' if first.raised
                            else 'probe:compiler_instance_reused')
             else:
-                o = self._compile(os.path.join(d, self.files[0]), how=op.get('how', 'compiler'))
+                o = self._compile(root, how=op.get('how', 'compiler'))
         finally:
             self.comp.FileStream = real
+            os.chdir(self.cwd0)
         if fired['n']:
             self.count('fault:damaged_read_' + op['kind'])
         if not fired['n']:
